@@ -145,13 +145,13 @@ class ICModel:
         t = self.typing(n)
         if t is None: return ('notsimple',)
         lex = n[1].attrs[n[2]] if isinstance(n, tuple) else n.text()
-        return ('value', value_key(t, lex))
+        return ('value', value_key(t, lex), lex)
     def tuples(self, scope, ic):
         """-> list of (target node, [field results])"""
         return [(t, [self.field_value(t, f) for f in ic.fields]) for t in eval_paths(scope, ic.selector)]
     def check(self, root):
         """-> set of violation kinds (empty == valid).  Also fills self.stats."""
-        self.viol = set(); self.stats = {'tuples': 0, 'scopes': 0, 'equal_lex_diff': 0}
+        self.viol = set(); self.stats = {'tuples': 0, 'scopes': 0, 'equal_lex_diff': 0}; self._lex = {}
         self._tables(root)
         return self.viol
     def _tables(self, n):
@@ -174,14 +174,16 @@ class ICModel:
             if ic.kind == 'keyref': continue
             tl = self.tuples(n, ic)
             self.stats['tuples'] += len(tl)
-            qualified = {}
+            qualified = {}; lexseen = {}
             for target, fv in tl:
                 if any(v[0] == 'multi' for v in fv): self.viol.add('field-multi'); continue
                 if any(v[0] == 'notsimple' for v in fv): self.viol.add('field-notsimple'); continue
                 if any(v[0] == 'absent' for v in fv):
                     if ic.kind == 'key': self.viol.add('key-absent')
                     continue
-                ks = tuple(v[1] for v in fv)
+                ks = tuple(v[1] for v in fv); lx = tuple(v[2] for v in fv)
+                if ks in lexseen and lexseen[ks] != lx: self.stats['equal_lex_diff'] += 1
+                lexseen.setdefault(ks, lx); self._lex.setdefault((ic.name, ks), lx)
                 if ks in qualified: self.viol.add('dup-' + ic.kind)
                 else: qualified[ks] = target
             # own entries take precedence over propagated ones
@@ -195,7 +197,9 @@ class ICModel:
             for target, fv in tl:
                 if any(v[0] == 'multi' for v in fv): self.viol.add('field-multi'); continue
                 if any(v[0] != 'value' for v in fv): continue
-                if tuple(v[1] for v in fv) not in tab: self.viol.add('keyref-notfound')
+                ks = tuple(v[1] for v in fv)
+                if ks not in tab: self.viol.add('keyref-notfound')
+                elif tuple(v[2] for v in fv) != self._lex.get((ic.refer, ks), tuple(v[2] for v in fv)): self.stats['equal_lex_diff'] += 1
         return tables
 
 # ==================================================================================================
@@ -358,9 +362,11 @@ def gen_case(draw, ext=False, big=False):
     def mk_carrier(car, fields_, tup, skip=None):
         node = xm.Node(tns, car)
         for i, (f, vid) in enumerate(zip(fields_, tup)):
-            if skip == i: continue
+            if skip == i and f != '.': continue          # '.' cannot be absent
             slot = slots_of(f, car); set_slot(node, slot, lex_of(T[slot], vid), tns)
         fill_other(node, car, set(fields_))
+        if car == 'j' and not node.children and '.' not in fields_ and T['j'] != 'string':
+            node.children = [lex_of(T['j'], draw(st.integers(0, len(POOLS[T['j']]) - 1)))]      # J has simple content: empty text is only valid for xs:string
         for c in node.elems():
             if getattr(c, '_needs_text', False) and not c.children:
                 tn = T['c']; v = lex_of(tn, draw(st.integers(0, len(POOLS[tn]) - 1))); c.children = [v] if v else []
@@ -416,6 +422,7 @@ def extended(case, root, k=5):
     """more tuples without new duplicates: carriers whose primary-field values are fresh (out-of-pool) values; only for
     integer/decimal/string/token typed fields, else returns None"""
     ic = case['ics'][0]; T = case['T']; tns = case['tns']
+    if len([x for x in case['ics'] if x.kind != 'keyref']) != 1: return None      # fresh carriers must not meet another constraint
     r = root.copy()
     fresh = {'integer': lambda i: str(1000 + i), 'decimal': lambda i: '%d.25' % (1000 + i), 'string': lambda i: 'fresh%d' % i, 'token': lambda i: 'fresh%d' % i}
     sel0 = ic.selector[0]
@@ -435,5 +442,6 @@ def extended(case, root, k=5):
         for c in node.elems():
             if getattr(c, '_needs_text', False) and not c.children:
                 c.children = [POOLS[T['c']][0][0]]
+        if car == 'j' and not node.children and T['j'] != 'string': node.children = [POOLS[T['j']][0][0]]
         r.children.append(node)
     return r
